@@ -10,7 +10,9 @@ open Emboss.Lr1
 #print axioms C08_valid_not_terminating_counterexample
 #print axioms C08_decides
 #print axioms C08_terminates_accepting
-#print axioms C08_gen_valid_partial
+#print axioms C08_gen_valid
+#print axioms C08_gen_correct
+#print axioms C08_gen_ambiguous_conflicts
 #print axioms C08_gen_closure
 #print axioms C08_gen_goto
 #print axioms C08_error_position
